@@ -18,7 +18,9 @@ RULE = ("Hypothesis-generated process chains of depth 1..12 built by the harness
         "containing a chain name at any position, only the leaf's own name, near misses, or nothing. Oracle: the harness reads "
         "the ACTUAL ancestor names up to pid 1 from /proc in the leaf; drop <=> some proper ancestor's name is listed; an "
         "unreadable tree (empty-named ancestor; or, in a traced run, the open/read of an ancestor's /proc/<pid>/stat failing by injection) "
-        "must pass unless a listed ancestor sits below it. non-trivial = match at depth "
+        "must pass unless a listed ancestor sits below it. Histories: up to 3 further calls of the same process after an ancestor at a drawn "
+        "distance renamed itself (same parent pid, other names), each call judged against the tree re-read at that moment; the caller's errno on "
+        "entry is drawn from {0, ERANGE, EINTR, EINVAL}. non-trivial = a history, or match at depth "
         ">= 2, or self-only match, or a name with ')'/'('/space, or a prefix/extension near miss; distinct by (depth, match "
         "position, name class)")
 
@@ -53,7 +55,14 @@ def strategy():
         else:
             items = [draw(st.sampled_from(pool)) for _ in range(n)]
         items = [i.replace(b",", b"_") for i in items]
-        return {"chain": chain, "leaf": leaf, "items": items}
+        # history: further calls of the SAME process after an ancestor changed its name (the parent pid stays the same)
+        steps = []
+        for _ in range(draw(st.sampled_from([0, 0, 1, 1, 2, 3]))):
+            dist = draw(st.integers(1, depth))
+            newname = draw(st.one_of(st.sampled_from([i for i in items if i and len(i) <= 15] or [b"zz"]), st.sampled_from(chain), name))
+            steps.append((dist, newname or b"renamed"))
+        return {"chain": chain, "leaf": leaf, "items": items, "steps": steps,
+                "pre_errno": [draw(st.sampled_from([0, 0, 0, 34, 34, 4, 22])) for _ in range(len(steps) + 1)]}
     return case()
 
 
@@ -68,32 +77,43 @@ def evaluate(env, c):
                           (b"filter_chain", b"exclude_spawns_of:" + arg)])
     if any(len(l) > 1022 for l in ini.split(b"\n")) or not gen.ini_safe(b"exclude_spawns_of:" + arg):
         return
+    steps = c.get("steps", [])
+    pre = c.get("pre_errno", [0] * (len(steps) + 1))
+    one = lambda k: [drv.op("Q"), drv.op("e", pre[k]), drv.op_exec("e", b"/bin/x", [b"x"], [], ret=-1, err=2), drv.op("G")]
     ops = [drv.op("x", out + "/log"), drv.op("W", "log", out + "/log"), drv.op("C", ini),
-           drv.op("F", *c["chain"]), drv.op("N", c["leaf"]), drv.op("Q"),
-           drv.op_exec("e", b"/bin/x", [b"x"], [], ret=-1, err=2), drv.op("G")]
+           drv.op("F", *c["chain"]), drv.op("N", c["leaf"])] + one(0)
+    for k, (dist, newname) in enumerate(steps):
+        ops += [drv.op("a", dist, newname)] + one(k + 1)
     res = d.scenario(ops)
     reports = d.sanitizer_reports()
-    if not res.clean or not res.of("G") or not res.of("Q"):
+    if not res.clean or len(res.of("G")) != len(steps) + 1 or len(res.of("Q")) != len(steps) + 1:
         raise Failure("process crashed or hung", {"result": res.describe(), "sanitizer": [r[:2000] for r in reports[:1]]}, key="crash")
-    q = res.of("Q")[0].f
-    if int(q[10]):
-        return   # the harness itself could not read the tree
-    anc = q[9].split(b"\n")[:-1]
     names = [i for i in arg.split(b",") if i]
-    content = drv.parse_dump(res.of("G")[-1])["log"][2]
-    logged = content == b"R\n"
-    hits = [k for k, a in enumerate(anc) if a in names]
-    empties = [k for k, a in enumerate(anc) if a == b""]
-    if not hits:
-        want = {True}
-    elif empties and min(empties) < min(hits):
-        want = {True, False}      # tree unreadable below the first listed ancestor: pass allowed
-    else:
-        want = {False}
-    if logged not in want:
-        raise Failure("exclude_spawns_of:%s with ancestors %s -> %s" % (arg[:200].decode("latin-1"),
-                      [a.decode("latin-1") for a in anc[:14]], "logged" if logged else "dropped"),
-                      {"logged": logged, "leaf": c["leaf"]}, {"logged": sorted(want)}, key="decision")
+    before = 0
+    for k in range(len(steps) + 1):
+        q = res.of("Q")[k].f
+        content = drv.parse_dump(res.of("G")[k])["log"][2] or b""
+        if content != b"R\n" * (len(content) // 2) or len(content) // 2 - before not in (0, 1):
+            raise Failure("log file content is not a sequence of whole records", {"content": content[:100]}, key="content")
+        logged = len(content) // 2 - before == 1
+        before = len(content) // 2
+        if int(q[10]):
+            continue   # the harness itself could not read the tree
+        anc = q[9].split(b"\n")[:-1]
+        hits = [j for j, a in enumerate(anc) if a in names]
+        empties = [j for j, a in enumerate(anc) if a == b""]
+        if not hits:
+            want = {True}
+        elif empties and min(empties) < min(hits):
+            want = {True, False}      # tree unreadable below the first listed ancestor: pass allowed
+        else:
+            want = {False}
+        if logged not in want:
+            raise Failure("exclude_spawns_of:%s with ancestors %s%s%s -> %s" % (arg[:200].decode("latin-1"),
+                          [a.decode("latin-1") for a in anc[:14]],
+                          " (call %d of the process, after ancestor renames %s)" % (k + 1, [(s[0], s[1].decode("latin-1")) for s in steps[:k]]) if k else "",
+                          " [errno %d on entry]" % pre[k] if pre[k] else "", "logged" if logged else "dropped"),
+                          {"logged": logged, "leaf": c["leaf"]}, {"logged": sorted(want)}, key="decision")
 
 
 def classify(c):
@@ -106,10 +126,23 @@ def classify(c):
     near = any((i != a and (a.startswith(i) or i.startswith(a))) for a in chain if a for i in items)
     nontriv = depth_hit >= 2 or selfonly or special or near
     cls = ["depth:%d" % min(len(chain), 12), "hit-depth:%d" % min(depth_hit, 12), "list:%d" % (1 if len(c["items"]) == 1 else (5 if len(c["items"]) <= 5 else 50))]
-    for flag, n in ((selfonly, "self-only"), (special, "special-chars"), (near, "prefix-near-miss"), (b"" in chain, "empty-named-ancestor")):
+    st_ = c.get("steps", [])
+    flips = False
+    if st_:
+        names = set(items)
+        cur = list(chain)
+        v0 = any(a in names for a in cur if a)
+        for dist, nn in st_:
+            cur[len(cur) - dist] = nn
+            if any(a in names for a in cur if a) != v0:
+                flips = True
+    for flag, n in ((selfonly, "self-only"), (special, "special-chars"), (near, "prefix-near-miss"), (b"" in chain, "empty-named-ancestor"),
+                    (bool(st_), "history:ancestor-renamed-between-calls"), (flips, "history:verdict-changes"), (any(c.get("pre_errno", [])), "caller-errno-set")):
         if flag:
             cls.append(n)
-    key = (len(chain), depth_hit, selfonly, special, near) if nontriv else None
+    st0 = c.get("steps", [])
+    nontriv = nontriv or bool(st0)
+    key = (len(chain), depth_hit, selfonly, special, near, len(st0), tuple(d for d, _ in st0)) if nontriv else None
     return key, cls
 
 
